@@ -28,9 +28,9 @@ func planFor(id string, thorough bool) *plan {
 	switch id {
 	case "C19":
 		p := &plan{scenarios: c19Scenarios(thorough), outcome: regOutcome, bounds: []int{-1, 2}, caps: []int64{30000, 300000}, shardBudget: 800000}
-		d := 3
+		d := 5 // 17 operations: 1.5 M sequences (a counter/epoch scheme confused by Clear needs hit, Clear, refill, look-up)
 		if thorough {
-			d = 4
+			d = 6
 		}
 		p.pre = func(res *shardResult, shard, n int) {
 			if shard == 0 {
